@@ -46,6 +46,13 @@ CHECKS = {
             "unsupplied set and the convergence obligation of init='results' under the Nearby predicate.",
             "one template; DC runs are not compared on q_mvar against the fresh net (rundcpp leaves that column untouched)",
             "TLC-generated histories replayed differentially; relations evaluated by TLC", "§4 C09"),
+    "C31": ("model_checking",
+            "TapTable.tla: TLC enumerates every assignment of (tap_dependency_table, characteristic id, tap position) to three "
+            "transformers sharing one table with a distinct row per (id, step); the spec's required row <<id_t, pos_t>> is "
+            "entered directly into a second net; TLC compares bus voltages and transformer flows of the two solved nets and "
+            "checks that the lookup did not write into net.trafo.",
+            "2W transformers only; table rows distinct by construction; tolerances 3e-5 abs + 20 ppm",
+            "TLC-enumerated configurations; differential power flow compared by TLC", "§4 C31"),
 }
 
 NOT_APPLICABLE = {
